@@ -280,7 +280,7 @@ flatF = P.build(d, 'flat', defines=['GLM_ENABLE_EXPERIMENTAL'], tag='c13_flat_bi
 QUICK = ('glm_quat_lerp_', 'glm_compat_lerp_', 'glm_dualquat_lerp_', 'glm_quat_slerp_t0_', 'glm_quat_slerp_t1_', 'glm_quat_slerp_spin_t0_',
          'glm_quat_slerp_spin0_', 'glm_vec3_slerp_t0_', 'glm_vec3_slerp_t1_', 'glm_quat_fastMix_')
 for fn, real, kw in contracts:
-    kw.setdefault('timeout', 600 if 'slerp_sym' in fn else 300)
+    kw.setdefault('timeout', 900 if 'slerp_sym' in fn else 600 if 'slerp_spin_f' in fn else 300)
     kw.setdefault('tier', 'quick' if fn.startswith(QUICK) else 'thorough')
     P.contract(fn, real, kind='R', **kw)
 # kind F: only the bitwise affine blend of lerp<float> is decided (cadical, ~60 s CPU); the others time out at 600 s (see not_covered) and are
